@@ -149,8 +149,11 @@ def parse_assumptions(output, targets):
             blocks.append(cur)
         elif cur is not None:
             m2 = re.match(r"^([A-Za-z_][A-Za-z0-9_'.]*)\s*:", ln)
+            m3 = re.match(r"^([A-Za-z_][A-Za-z0-9_'.]*)\s*$", ln)   # name alone; ": type" follows indented
             if m2:
                 cur.append(m2.group(1))
+            elif m3:
+                cur.append(m3.group(1))
             elif ln and not ln[0].isspace():
                 cur = None
     if len(blocks) != len(targets):
